@@ -145,7 +145,7 @@ type c10Rendering struct {
 
 func genC10(c *Ctx) {
 	r := c.R
-	c.Rule = "random JSON-like documents with rectangular arrays of objects (depth ≤3), each with 5 data-directed queries; every query is evaluated on the json rendering (map[string]any/[]any/float64) and on 12 re-renderings of the same document (integer kinds, decimal.Decimal, named types, pointers to numbers, Go arrays, typed slices, StructOf structs, map[NString]any, map[any]any, objects behind pointers, mixed number carriers, and the document's JSON/YAML/TOML text parsed inside the query); oracle: equal logical result (keys case-folded, numbers by value). Sprintf serialises the carrier by design and is excluded; AsJSON (appended to the first query of every document: a serialisation of whatever sub-document the query reached, incl. lists of lists of objects) is compared between the json maps and the JSON/YAML/TOML text carriers only; RemoveKeysBy* is excluded on the struct rendering (a case-sensitive pattern meets the capitalised field name: an ambiguity of the re-representation itself). distinct = distinct (query skeleton, data shape, outcome class); non-trivial = outcome is not the most common class"
+	c.Rule = "random JSON-like documents with rectangular arrays of objects (depth ≤3), each with 5 data-directed queries; every query is evaluated on the json rendering (map[string]any/[]any/float64) and on 12 re-renderings of the same document (integer kinds, decimal.Decimal, named types, pointers to numbers, Go arrays, typed slices, StructOf structs, map[NString]any, map[any]any, objects behind pointers, mixed number carriers, named number types with a String method; the float32 rounding of the document as plain float32 / named float32 / *float32 (compared with each other), and the document's JSON/YAML/TOML text parsed inside the query); oracle: equal logical result (keys case-folded, numbers by value). Sprintf serialises the carrier by design and is excluded; AsJSON (appended to the first query of every document: a serialisation of whatever sub-document the query reached, incl. lists of lists of objects) is compared between the json maps and the JSON/YAML/TOML text carriers only; RemoveKeysBy* is excluded on the struct rendering (a case-sensitive pattern meets the capitalised field name: an ambiguity of the re-representation itself). distinct = distinct (query skeleton, data shape, outcome class); non-trivial = outcome is not the most common class"
 	rends := []c10Rendering{
 		{"int-kinds", Style{Obj: "map", Num: "int", R: r}},
 		{"decimal", Style{Obj: "map", Num: "dec"}},
@@ -160,6 +160,7 @@ func genC10(c *Ctx) {
 		{"iface-key-map", Style{Obj: "imap", Num: "f64"}},
 		{"iface-named-key-map", Style{Obj: "inmap", Num: "f64"}},
 		{"ptr-objects", Style{Obj: "map", Num: "f64", PtrObj: true}},
+		{"stringer-numbers", Style{Obj: "map", Num: "stringer"}},
 		{"mixed", Style{Obj: "map", Num: "mixed", R: r}},
 	}
 	n := c.scale(2600, 26000)
@@ -234,6 +235,30 @@ func genC10(c *Ctx) {
 				got := c.Do(Case{Q: q, D: d2, Cls: rd.name, InDomain: true})
 				check(rd.name, got, d2, q)
 			}
+			// 32-bit floats: the document with every number rounded to float32 is another document, but it is the same one whether
+			// the floats are plain float32, a named float32 type or *float32
+			if !serialises {
+				ref := render(doc, &Style{Obj: "map", Num: "f32"})
+				refOut := c.Do(Case{Q: q, D: ref, Cls: "float32", InDomain: true})
+				refL := refOut.Class
+				if refOut.Class == "ok" {
+					refL = refOut.Logical
+				}
+				for _, alt := range []struct{ name, num string }{{"named-float32", "nf32"}, {"ptr-float32", "pf32"}} {
+					d2 := render(doc, &Style{Obj: "map", Num: alt.num})
+					got := c.Do(Case{Q: q, D: d2, Cls: alt.name, InDomain: true})
+					gotL := got.Class
+					if got.Class == "ok" {
+						gotL = got.Logical
+					}
+					comparisons++
+					if gotL != refL {
+						c.addViolation(Violation{Kind: "relational", Query: q, QueryHex: hx(q), Data: d2, Expected: refL, Got: gotL,
+							Why: "the same document of 32-bit floats carried as " + alt.name + " gives a different logical result than as plain float32", Cls: alt.name,
+							Key: "carrier:" + alt.name + ":" + lastFunc(q), Extra: map[string]any{"float32_data": ref}})
+					}
+				}
+			}
 			// the document's own text, parsed inside the query (only when `$` occurs once: inner `$` would mean the wrapper)
 			if strings.Count(q, "$") == 1 && strings.HasPrefix(q, "$") {
 				for _, tx := range []struct{ name, fn, text string }{{"json-text", "ParseJSON", jsonText}, {"yaml-text", "ParseYAML", yamlText}, {"toml-text", "ParseTOML", tomlText}} {
@@ -245,6 +270,35 @@ func genC10(c *Ctx) {
 					got := c.Do(Case{Q: q2, D: d2, Cls: tx.name, InDomain: true})
 					check(tx.name, got, d2, q2)
 				}
+			}
+		}
+	}
+	// YAML written in block style and in flow style (which is also JSON) is the same document: whole numbers beyond 2^53 included
+	for i := 0; i < 40; i++ {
+		big := []int64{9007199254740993, 18014398509481985, 1234567890123456789, -9007199254740995, 9223372036854775807, 4611686018427387905}
+		a, b2, c2 := big[i%6], big[(i+1)%6], big[(i+3)%6]
+		val := map[string]any{"id": a, "ids": []any{a, b2, int64(i)}, "o": map[string]any{"n": c2, "s": "x"}, "rows": []any{map[string]any{"k": b2}, map[string]any{"k": c2}}}
+		blockB, err1 := yaml.Marshal(val)
+		flowB, err2 := json.Marshal(val)
+		if err1 != nil || err2 != nil {
+			continue
+		}
+		d2 := tvMap("str", [][2]any{{hx("block"), tvStr(string(blockB))}, {hx("flow"), tvStr(string(flowB))}})
+		for _, tail := range []string{".id", ".ids.First()", ".ids.Sum()", ".ids.Last().Add(1)", ".o.n.Subtract(1)", ".rows.k", ".rows.k.Maximum()", ".id.Equal(" + fmt.Sprint(a) + ")", ".ids[@.Greater(100)]", ".o"} {
+			ob := c.Do(Case{Q: "$.block.ParseYAML()" + tail, D: d2, Cls: "yaml-block", InDomain: true})
+			of := c.Do(Case{Q: "$.flow.ParseYAML()" + tail, D: d2, Cls: "yaml-flow", InDomain: true})
+			comparisons++
+			lb, lf := ob.Class, of.Class
+			if ob.Class == "ok" {
+				lb = ob.Logical
+			}
+			if of.Class == "ok" {
+				lf = of.Logical
+			}
+			if lb != lf {
+				c.addViolation(Violation{Kind: "relational", Query: "$.flow.ParseYAML()" + tail, QueryHex: hx("$.flow.ParseYAML()" + tail), Data: d2, Expected: lb, Got: lf,
+					Why: "the same YAML document written in flow style (JSON-compatible) gives a different logical result than written in block style", Cls: "yaml-flow",
+					Key: "carrier:yaml-flow:" + lastFunc(tail)})
 			}
 		}
 	}
